@@ -17,7 +17,6 @@ NOT_APPLICABLE = {
     #'C02-old': 'computed migrations: ' + NO_PARSER,
     #'C10-old': 'step-by-step vs direct migration: ' + NO_PARSER,
     #'C11-old': 'SDL order independence: sdl_to_ddl needs parsed SDL and std name resolution (' + NO_PARSER + '); its ordering kernel is decided under C20',
-    'C12': 'inferred types vs evaluated values: needs compilation and the toy evaluator, both need the parser; ' + NO_PARSER,
 }
 
 # property -> (category, technique, text, level_note, design_ref)
@@ -32,8 +31,11 @@ check('C06', 'other',
       'bounded symbolic execution of the real cardinality-algebra functions (CrossHair + z3), set sizes as unbounded symbolic integers',
       'Solver-decided, per path, over all tuples of <=3 argument cardinalities and ALL integer set sizes: the cartesian/union/'
       'coalesce/bounds functions of inference/cardinality.py never report a cardinality that an actual set size contradicts. '
-      'Only the bounds algebra is covered (the inference rules over IR need the parser, which is absent).',
-      'Trusted: the 20-line concretisation gamma(), CrossHair\'s int/enum models, z3. Outside: every __infer_* rule, multiplicity.',
+      'In addition every accepted query of a compositional family of hand-built queries is compiled by the real EdgeQL compiler and '
+      'evaluated by a reference evaluator on a family of explicit database instances: result sizes lie in the inferred cardinality and '
+      'UNIQUE multiplicity means no duplicates.',
+      'Trusted: the 20-line concretisation gamma(), the 150-line reference evaluator and its database family, CrossHair, z3. Outside: '
+      'queries beyond the family, exclusive constraints, path factoring.',
       'DESIGN.md section 4, C06')
 
 check('C08', 'other',
@@ -152,6 +154,15 @@ check('C07', 'other',
       'unique marker constant), following CTE references. Backlinks, aliases, computeds and globals are not in the family.',
       'Trusted: the guard-flow analysis; markers identify conditions, their logical combination is not checked. Queries are qlast trees; '
       'std is a transcribed fragment.', 'DESIGN.md section 4, C07')
+
+check('C12', 'other',
+      'bounded symbolic execution over a compositional family of hand-built queries (CrossHair + z3 choose), real EdgeQL compiler, reference '
+      'evaluator on explicit database instances',
+      'For every accepted query of the family the values a reference evaluator computes on each of 10 explicit database instances x 3 parameter '
+      'sets belong to the result type the real compiler inferred (scalar kind through views, tuple structure, object type up to sub-typing '
+      'over a 3-level hierarchy).',
+      'Trusted: the reference evaluator. Only str / int64 / bool scalars exist in the stand-in: mixed numeric types, arrays and implicit casts '
+      'are outside.', 'DESIGN.md section 4, C12')
 
 check('C05', 'model_checking',
       'bounded model checking of DDL histories through the real backend delta (pgsql.delta adapt / apply / generate): commands are '
